@@ -8,6 +8,7 @@
              listen_endpoint tuple local_seq_no remote_seq_no remote_last_seq remote_last_ack
              remote_last_win remote_win_shift remote_win_len remote_win_scale remote_has_sack remote_mss
              remote_last_ts local_rx_last_seq local_rx_last_ack local_rx_dup_acks pending_fast_retransmit
+             syn_unacked_in_fin_wait
              ack_delay ack_delay_timer challenge_ack_timer nagle congestion_controller
              tsval_generator (bool: is_some; the value it returns is the input cx_tsval) last_remote_tsval
    CONTEXT   record [ctx]: cx_now (us), cx_ip_mtu, cx_addr (the interface's only address),
@@ -260,7 +261,7 @@ Definition tcp_new (rx_storage tx_storage : list Z) (cc : controller) (ts : bool
   if rb_cap rx >? 2 ^ 30 then Panic else
   Ok (mkSocket Closed timer_new rtte_default asm_new rx false tx
         None None None (mkListenEp None 0) None
-        0 0 0 None 0 (tcp_win_shift_for (rb_cap rx)) 0 None false tcp_DEFAULT_MSS None None None 0 false
+        0 0 0 None 0 (tcp_win_shift_for (rb_cap rx)) 0 None false tcp_DEFAULT_MSS None None None 0 false false
         (Some tcp_ACK_DELAY_DEFAULT) ADIdle 0 true cc ts 0).
 
 (* reset() leaves timeout, keep_alive, hop_limit, remote_has_sack, local_rx_last_seq/ack,
@@ -287,7 +288,8 @@ Definition tcp_reset (s : socket) : socket :=
   let s := upd_remote_mss s tcp_DEFAULT_MSS in
   let s := upd_remote_last_ts s None in
   let s := upd_ack_delay_timer s ADIdle in
-  upd_challenge_ack_timer s 0.
+  let s := upd_challenge_ack_timer s 0 in
+  upd_syn_unacked_in_fin_wait s false.
 
 Definition tcp_set_timeout (s : socket) (d : option Z) : socket := upd_timeout s d.
 Definition tcp_set_ack_delay (s : socket) (d : option Z) : socket := upd_ack_delay s d.
@@ -371,7 +373,8 @@ Definition tcp_close (s : socket) : socket :=
   match s_state s with
   | Listen => tcp_set_state s Closed
   | SynSent => tcp_set_state s Closed
-  | SynReceived | Established => tcp_set_state s FinWait1
+  | SynReceived => tcp_set_state (upd_syn_unacked_in_fin_wait s true) FinWait1
+  | Established => tcp_set_state s FinWait1
   | CloseWait => tcp_set_state s LastAck
   | FinWait1 | FinWait2 | Closing | TimeWait | LastAck | Closed => s
   end.
@@ -544,10 +547,20 @@ Inductive phase (A : Type) :=
 Arguments Cont {A} tag a.
 Arguments Ret {A} tag s reply.
 
-Definition sent_syn_of (st : tcp_state) : bool :=
-  match st with SynSent | SynReceived => true | _ => false end.
-Definition sent_fin_of (st : tcp_state) : bool :=
-  match st with FinWait1 | LastAck | Closing => true | _ => false end.
+(* l.1609: (sent_syn, sent_fin); FIN-WAIT-1 entered by close() in SYN-RECEIVED still has its SYN|ACK
+   unacknowledged (syn_unacked_in_fin_wait) *)
+Definition tcp_sent_syn (s : socket) : bool :=
+  match s_state s with
+  | SynSent | SynReceived => true
+  | FinWait1 => s_syn_unacked_in_fin_wait s
+  | _ => false
+  end.
+Definition tcp_sent_fin (s : socket) : bool :=
+  match s_state s with
+  | FinWait1 => negb (s_syn_unacked_in_fin_wait s)
+  | LastAck | Closing => true
+  | _ => false
+  end.
 Definition b2z (b : bool) : Z := if b then 1 else 0.
 
 (* l.1604-1703: reject unacceptable acknowledgements.  Tags 100-119. *)
@@ -575,10 +588,10 @@ Definition tcp_process_ack_check (cx : ctx) (s : socket) (ip : ip_repr) (r : tcp
       if negb (ack_number =? iss1)
       then do p <- tcp_rst_reply ip r; Ok (Ret 112 s (Some p))
       else Ok (Cont 113 tt)
-  | st, _, Some ack_number =>
-      let control_len := b2z (sent_syn_of st) + b2z (sent_fin_of st) in
+  | _, _, Some ack_number =>
+      let control_len := b2z (tcp_sent_syn s) + b2z (tcp_sent_fin s) in
       let unacknowledged := rb_len (s_tx_buffer s) + control_len in
-      let ack_min := seq_add (s_local_seq_no s) (b2z (sent_syn_of st)) in
+      let ack_min := seq_add (s_local_seq_no s) (b2z (tcp_sent_syn s)) in
       let ack_max := seq_add (s_local_seq_no s) unacknowledged in
       if seq_lt ack_number ack_min then Ok (Ret 114 s None)
       else if seq_gt ack_number ack_max then
@@ -641,8 +654,8 @@ Definition tcp_process_window (cx : ctx) (s : socket) (ip : ip_repr) (r : tcp_re
 
 (* l.1834-1860: (ack_len, ack_of_fin, ack_all) *)
 Definition tcp_process_ack_len (s : socket) (r : tcp_repr) : outcome (Z * bool * bool) :=
-  let sent_syn := sent_syn_of (s_state s) in
-  let sent_fin := sent_fin_of (s_state s) in
+  let sent_syn := tcp_sent_syn s in
+  let sent_fin := tcp_sent_fin s in
   match r_ack_number r with
   | Some ack_number =>
       if control_eqb (r_control r) CRst then Ok (0, false, false) else
@@ -800,6 +813,7 @@ Definition tcp_process_dup_ack (cx : ctx) (s : socket) (r : tcp_repr) (ack_len :
            Ok (upd_congestion_controller s cc, 173));
       let '(s, tg) := st in
       let s := upd_local_seq_no s ack_number in
+      let s := upd_syn_unacked_in_fin_wait s false in
       let s := if seq_lt (s_remote_last_seq s) (s_local_seq_no s)
                then upd_remote_last_seq s (s_local_seq_no s) else s in
       Ok (s, tg)
@@ -932,6 +946,7 @@ Definition tcp_process (cx : ctx) (s : socket) (ip : ip_repr) (r : tcp_repr)
 (* ---------- dispatch (l.2298-2810) ---------- *)
 
 Definition tcp_window_to_update (s : socket) : outcome bool :=
+  if s_syn_unacked_in_fin_wait s then Ok false else
   match s_state s with
   | SynSent | Established | FinWait1 | FinWait2 =>
       let new_win := tcp_scaled_window s in
@@ -959,7 +974,8 @@ Definition tcp_seq_to_transmit (cx : ctx) (s : socket) : outcome bool :=
       do local_mss <- tcp_local_mss cx;
       let effective_mss := sat_sub (Z.min local_mss (s_remote_mss s)) options_len in
       let data_in_flight := negb (s_remote_last_seq s =? s_local_seq_no s) in
-      if (match s_state s with SynSent | SynReceived => true | _ => false end) && negb data_in_flight
+      if ((match s_state s with SynSent | SynReceived => true | _ => false end)
+          || s_syn_unacked_in_fin_wait s) && negb data_in_flight
       then Ok true else
       let max_send_seq :=
         seq_add (s_local_seq_no s) (Z.min (s_remote_win_len s) (rb_len (s_tx_buffer s))) in
@@ -1026,8 +1042,61 @@ Definition tcp_dispatch_decide (cx : ctx) (s : socket) : outcome (socket * bool 
   then Ok (upd_tuple (tcp_set_state s Closed) None, false, 216) else
   Ok (s, false, 217).
 
+(* l.2640-2671: the SYN (SYN-SENT) or SYN|ACK (SYN-RECEIVED, FIN-WAIT-1 with the SYN unacknowledged):
+   unscaled window, window-scale and SACK-permitted options *)
+Definition tcp_syn_repr (s : socket) (repr : tcp_repr) (ts : option (Z * Z)) (syn_sent : bool) : tcp_repr :=
+  mkRepr (r_src_port repr) (r_dst_port repr) CSyn (s_local_seq_no s)
+         (if syn_sent then None else r_ack_number repr)
+         (u16_try (rb_window (s_rx_buffer s)))
+         (if syn_sent then Some (s_remote_win_shift s)
+          else match s_remote_win_scale s with
+               | Some _ => Some (s_remote_win_shift s) | None => None end)
+         None
+         (if syn_sent then true else s_remote_has_sack s)
+         no_sack ts [].
+
+(* l.2673-2760: the data states of dispatch (ESTABLISHED, FIN-WAIT-1, CLOSING, CLOSE-WAIT, LAST-ACK):
+   how much of the transmit buffer goes into the segment, PSH / FIN.  Tags 224-226. *)
+Definition tcp_dispatch_build_data (cx : ctx) (s : socket) (repr : tcp_repr)
+  : outcome (socket * option tcp_repr * bool * Z) :=
+  let now := cx_now cx in
+  do options_len <- usub (repr_header_len repr) wtcp_HEADER_LEN;
+  do local_mss <- tcp_local_mss cx;
+  let effective_mss := sat_sub (Z.min local_mss (s_remote_mss s)) options_len in
+  do r1 <-
+    (if s_pending_fast_retransmit s && (s_remote_win_len s >? 0) then
+       let size := Z.min (Z.min effective_mss (rb_len (s_tx_buffer s))) (s_remote_win_len s) in
+       let repr := repr_set_seq repr (s_local_seq_no s) in
+       let repr := repr_set_payload repr (rb_get_allocated (s_tx_buffer s) 0 size) in
+       Ok (upd_pending_fast_retransmit s false, repr, 0, false, 224)
+     else
+       let win_right_edge := seq_add (s_local_seq_no s) (s_remote_win_len s) in
+       do win_limit <-
+         (if seq_ge win_right_edge (s_remote_last_seq s)
+          then seq_sub win_right_edge (s_remote_last_seq s) else Ok 0);
+       let zwp := (win_limit =? 0) && timer_should_zero_window_probe (s_timer s) now in
+       let win_limit := if zwp then 1 else win_limit in
+       do size <-
+         (if zwp then Ok (Z.min win_limit effective_mss)
+          else do cwr <- tcp_cwnd_remaining s;
+               Ok (Z.min (Z.min win_limit effective_mss) cwr));
+       do offset <- tcp_flight_size s;
+       let repr := repr_set_payload repr (rb_get_allocated (s_tx_buffer s) offset size) in
+       Ok (s, repr, offset, zwp, if zwp then 225 else 226));
+  let '(s, repr, offset, zwp, tg) := r1 in
+  let has_payload := match r_payload repr with [] => false | _ => true end in
+  let repr :=
+    if offset + l_len (r_payload repr) =? rb_len (s_tx_buffer s) then
+      match s_state s with
+      | FinWait1 | LastAck | Closing => repr_set_control repr CFin
+      | Established | CloseWait => if has_payload then repr_set_control repr CPsh else repr
+      | _ => repr
+      end
+    else repr in
+  Ok (s, Some repr, zwp, tg).
+
 (* l.2546-2734: construct the segment.  Returns the socket (pending_fast_retransmit may be cleared),
-   the segment or None (LISTEN), is_zero_window_probe, is_keep_alive.  Tags 220-239. *)
+   the segment or None (LISTEN), is_zero_window_probe, is_keep_alive.  Tags 220-228. *)
 Definition tcp_dispatch_build (cx : ctx) (s : socket) (t : tuple)
   : outcome (socket * option tcp_repr * bool * bool * Z) :=
   let now := cx_now cx in
@@ -1038,53 +1107,13 @@ Definition tcp_dispatch_build (cx : ctx) (s : socket) (t : tuple)
     match s_state s with
     | Closed => Ok (s, Some (repr_set_control repr CRst), false, 220)
     | Listen => Ok (s, None, false, 221)
-    | SynSent | SynReceived =>
-        let win := u16_try (rb_window (s_rx_buffer s)) in
-        let syn_sent := tcp_state_eqb (s_state s) SynSent in
-        Ok (s, Some (mkRepr (r_src_port repr) (r_dst_port repr) CSyn (s_local_seq_no s)
-                      (if syn_sent then None else r_ack_number repr) win
-                      (if syn_sent then Some (s_remote_win_shift s)
-                       else match s_remote_win_scale s with
-                            | Some _ => Some (s_remote_win_shift s) | None => None end)
-                      None
-                      (if syn_sent then true else s_remote_has_sack s)
-                      no_sack ts []),
-            false, if syn_sent then 222 else 223)
-    | Established | FinWait1 | Closing | CloseWait | LastAck =>
-        do options_len <- usub (repr_header_len repr) wtcp_HEADER_LEN;
-        do local_mss <- tcp_local_mss cx;
-        let effective_mss := sat_sub (Z.min local_mss (s_remote_mss s)) options_len in
-        do r1 <-
-          (if s_pending_fast_retransmit s && (s_remote_win_len s >? 0) then
-             let size := Z.min (Z.min effective_mss (rb_len (s_tx_buffer s))) (s_remote_win_len s) in
-             let repr := repr_set_seq repr (s_local_seq_no s) in
-             let repr := repr_set_payload repr (rb_get_allocated (s_tx_buffer s) 0 size) in
-             Ok (upd_pending_fast_retransmit s false, repr, 0, false, 224)
-           else
-             let win_right_edge := seq_add (s_local_seq_no s) (s_remote_win_len s) in
-             do win_limit <-
-               (if seq_ge win_right_edge (s_remote_last_seq s)
-                then seq_sub win_right_edge (s_remote_last_seq s) else Ok 0);
-             let zwp := (win_limit =? 0) && timer_should_zero_window_probe (s_timer s) now in
-             let win_limit := if zwp then 1 else win_limit in
-             do size <-
-               (if zwp then Ok (Z.min win_limit effective_mss)
-                else do cwr <- tcp_cwnd_remaining s;
-                     Ok (Z.min (Z.min win_limit effective_mss) cwr));
-             do offset <- tcp_flight_size s;
-             let repr := repr_set_payload repr (rb_get_allocated (s_tx_buffer s) offset size) in
-             Ok (s, repr, offset, zwp, if zwp then 225 else 226));
-        let '(s, repr, offset, zwp, tg) := r1 in
-        let has_payload := match r_payload repr with [] => false | _ => true end in
-        let repr :=
-          if offset + l_len (r_payload repr) =? rb_len (s_tx_buffer s) then
-            match s_state s with
-            | FinWait1 | LastAck | Closing => repr_set_control repr CFin
-            | Established | CloseWait => if has_payload then repr_set_control repr CPsh else repr
-            | _ => repr
-            end
-          else repr in
-        Ok (s, Some repr, zwp, tg)
+    | FinWait1 =>
+        if s_syn_unacked_in_fin_wait s
+        then Ok (s, Some (tcp_syn_repr s repr ts false), false, 228)   (* SYN|ACK again, l.2663 *)
+        else tcp_dispatch_build_data cx s repr
+    | SynSent => Ok (s, Some (tcp_syn_repr s repr ts true), false, 222)
+    | SynReceived => Ok (s, Some (tcp_syn_repr s repr ts false), false, 223)
+    | Established | Closing | CloseWait | LastAck => tcp_dispatch_build_data cx s repr
     | FinWait2 | TimeWait => Ok (s, Some repr, false, 227)
     end;
   let '(s, orepr, zwp, tg) := built in
